@@ -262,6 +262,8 @@ def execute(case, ctx):
                     if abs(b0 - b1) > 1e-11 * sc:
                         err.append("hard-sphere bounce changed the pair's momentum (axis %d: %r -> %r)" % (a, b0, b1))
                 bounced = (q1.vx, q1.vy, q1.vz, q2.vx, q2.vy, q2.vz) != (v1x, v1y, v1z, v2x, v2y, v2z)
+                if not all(math.isfinite(v_) for v_ in (q1.vx, q1.vy, q1.vz, q2.vx, q2.vy, q2.vz)):
+                    err.append("non-finite velocities after a hard-sphere bounce (radii %r, %r)" % (p1.r, p2.r))
                 if (gvx, gvy, gvz) != (0.0, 0.0, 0.0):
                     probe("bounce_across_moving_image")
                 rsum = p1.r + p2.r
